@@ -91,6 +91,7 @@ macro_rules! extraction_proof {
         #[kani::stub(<chrono::Local as chrono::TimeZone>::offset_from_local_datetime, crate::verif_kani::common::stub_offset_from_local_datetime)]
         #[kani::stub(<chrono::Local as chrono::TimeZone>::offset_from_utc_datetime, crate::verif_kani::common::stub_offset_from_utc_datetime)]
         #[kani::stub(chrono::NaiveDateTime::parse_from_str, crate::verif_kani::common::stub_naive_parse_from_str)]
+        #[kani::stub(<crate::model::Value as std::clone::Clone>::clone, crate::verif_kani::common::stub_value_clone_scalar)]
         #[kani::stub(alloc::fmt::format, crate::verif_kani::common::stub_format)]
         $(#[$m])*
         fn $name() $body
@@ -103,33 +104,39 @@ fn v_bool(v: &Value) -> Option<bool> { if let Value::Bool(x) = v { Some(*x) } el
 // ------------------------------------------------------------------------------------------------
 // C01: one INT column on split field 1, with or without DEFAULT: the value is exactly the literal of the
 // referenced field; DEFAULT only when the pattern or field did not take part; NULL when not a literal.
-extraction_proof! {
-    #[kani::unwind(4)]
-    fn c01_split_int_default() {
-        let (len, b0, b1, field) = any_field();
-        let matched: bool = kani::any();
-        let nfields: usize = kani::any();
-        kani::assume(nfields >= 1 && nfields <= 2);
-        let has_default: bool = kani::any();
-        let d: i64 = kani::any();
-        let all = ["whole line", field];
-        let input = parsing_input(matched, &all[..nfields], serde_json::Value::Null);
-        let column = ManuallyDrop::new(regex_column(1, ValueType::Int, true, if has_default { Some(Value::Int(d)) } else { None }));
-        let value = ManuallyDrop::new(column.parsing.extract(&column, &input));
-        let took_part = matched && nfields == 2;
-        if !took_part {
-            if has_default { assert!(v_int(&value) == Some(d), "C01 DEFAULT when the pattern or group did not take part"); }
-            else { assert!(value.is_null(), "C01 NULL when the pattern or group did not take part"); }
-        } else {
-            match ref_int(len, b0, b1) {
-                Some(v) => assert!(v_int(&value) == Some(v), "C01 the column holds exactly the literal of the referenced field"),
-                None => assert!(value.is_null(), "C01 NULL when the text is not a literal of the type (DEFAULT is not used)"),
+macro_rules! split_int_harness {
+    ($name:ident, $has_default:expr) => {
+        extraction_proof! {
+            #[kani::unwind(4)]
+            fn $name() {
+                let (len, b0, b1, field) = any_field();
+                let matched: bool = kani::any();
+                let nfields: usize = kani::any();
+                kani::assume(nfields >= 1 && nfields <= 2);
+                let has_default: bool = $has_default;   // concrete: a symbolic Option<Value> would make every clone walk all variants
+                let d: i64 = kani::any();
+                let all = ["whole line", field];
+                let input = parsing_input(matched, &all[..nfields], serde_json::Value::Null);
+                let column = ManuallyDrop::new(regex_column(1, ValueType::Int, true, if has_default { Some(Value::Int(d)) } else { None }));
+                let value = ManuallyDrop::new(column.parsing.extract(&column, &input));
+                let took_part = matched && nfields == 2;
+                if !took_part {
+                    if has_default { assert!(v_int(&value) == Some(d), "C01 DEFAULT when the pattern or group did not take part"); }
+                    else { assert!(value.is_null(), "C01 NULL when the pattern or group did not take part"); }
+                } else {
+                    match ref_int(len, b0, b1) {
+                        Some(v) => assert!(v_int(&value) == Some(v), "C01 the column holds exactly the literal of the referenced field"),
+                        None => assert!(value.is_null(), "C01 NULL when the text is not a literal of the type (DEFAULT is not used)"),
+                    }
+                }
+                kani::cover!(took_part && ref_int(len, b0, b1).is_none(), "c01: unparsable field reachable");
+                kani::cover!(took_part && len == 2 && b0 == b'-', "c01: negative literal reachable");
             }
         }
-        kani::cover!(took_part && ref_int(len, b0, b1).is_none() && has_default, "c01: unparsable with DEFAULT reachable");
-        kani::cover!(took_part && len == 2 && b0 == b'-', "c01: negative literal reachable");
-    }
+    };
 }
+split_int_harness!(c01_split_int_default, true);
+split_int_harness!(c01_split_int_nodefault, false);
 
 // BOOLEAN means the group's existence
 extraction_proof! {
@@ -205,22 +212,29 @@ extraction_proof! {
 // C06 part 1: the admission rule of TableDefinition::extract - a line becomes a row iff some column is
 // non-NULL (DEFAULT counts) and every NOT NULL column is non-NULL.  Tables without patterns: every regex
 // column yields its DEFAULT or NULL, so the NULL pattern is chosen through the DEFAULTs (symbolic).
-extraction_proof! {
-    #[kani::unwind(4)]
-    fn c06_admission_two_columns() {
-        let (d1, d2): (bool, bool) = (kani::any(), kani::any());
-        let (nullable1, nullable2): (bool, bool) = (kani::any(), kani::any());
-        let table = ManuallyDrop::new(TableDefinition::new("t", Vec::new(), vec![
-            regex_column(1, ValueType::Int, nullable1, if d1 { Some(Value::Int(0)) } else { None }),
-            regex_column(2, ValueType::Int, nullable2, if d2 { Some(Value::Int(0)) } else { None })]).unwrap());
-        let row = ManuallyDrop::new(table.extract(""));
-        let expected = (d1 || d2) && (nullable1 || d1) && (nullable2 || d2);
-        assert!(row.any_result() == expected, "C06 a line becomes a row iff a column is non-NULL and every NOT NULL column is non-NULL");
-        if expected { assert!(row.columns.len() == 2, "C06 an admitted row has every column"); }
-        kani::cover!(expected && !nullable1 && !nullable2, "c06 admission: two NOT NULL columns admitted reachable");
-        kani::cover!(!expected && d2 && !nullable1, "c06 admission: rejected by the first NOT NULL column reachable");
-    }
+macro_rules! admission_harness {
+    ($name:ident, $d1:expr, $d2:expr) => {
+        extraction_proof! {
+            #[kani::unwind(4)]
+            fn $name() {
+                let (d1, d2): (bool, bool) = ($d1, $d2);   // which columns obtain a (DEFAULT) value: concrete per harness
+                let (nullable1, nullable2): (bool, bool) = (kani::any(), kani::any());
+                let table = ManuallyDrop::new(TableDefinition::new("t", Vec::new(), vec![
+                    regex_column(1, ValueType::Int, nullable1, if d1 { Some(Value::Int(0)) } else { None }),
+                    regex_column(2, ValueType::Int, nullable2, if d2 { Some(Value::Int(0)) } else { None })]).unwrap());
+                let row = ManuallyDrop::new(table.extract(""));
+                let expected = (d1 || d2) && (nullable1 || d1) && (nullable2 || d2);
+                assert!(row.any_result() == expected, "C06 a line becomes a row iff a column is non-NULL and every NOT NULL column is non-NULL");
+                if expected { assert!(row.columns.len() == 2, "C06 an admitted row has every column"); }
+                kani::cover!(!nullable1 && !nullable2, "c06 admission: two NOT NULL columns reachable");
+            }
+        }
+    };
 }
+admission_harness!(c06_admission_both_values, true, true);
+admission_harness!(c06_admission_first_null, false, true);
+admission_harness!(c06_admission_second_null, true, false);
+admission_harness!(c06_admission_both_null, false, false);
 
 // ------------------------------------------------------------------------------------------------
 // C02: JSON array paths `{[i]}` / `{[i][j]}` on a JSON array document with symbolic leaves.
@@ -250,14 +264,14 @@ fn json_column(access: JsonAccess, column_type: ValueType, default_value: Option
 }
 
 macro_rules! json_harness {
-    ($name:ident, $ty:expr, $tyk:expr) => {
+    ($name:ident, $ty:expr, $tyk:expr, $has_default:expr) => {
         extraction_proof! {
             #[kani::unwind(4)]
             fn $name() {
                 let (kind, i, u, f, b, leaf) = any_json_leaf();
                 let index: usize = kani::any();
                 kani::assume(index <= 2);
-                let has_default: bool = kani::any();
+                let has_default: bool = $has_default;
                 // document: [leaf, ""]  (index 0 -> leaf, index 1 -> a string, index 2 -> absent)
                 let input = parsing_input(false, &[], serde_json::Value::Array(vec![leaf, serde_json::Value::String(String::new())]));
                 let default = if has_default { Some(match $tyk { 0 => Value::Int(7), 1 => Value::Float(Float(7.0)), 2 => Value::Bool(true), _ => Value::String(String::new()) }) } else { None };
@@ -284,15 +298,18 @@ macro_rules! json_harness {
                     assert!(ok, "C02 the column holds the addressed JSON value typed without coercion, NULL on a type mismatch (DEFAULT is not used)");
                 }
                 kani::cover!(index == 0 && kind == 3 && u > i64::MAX as u64, "c02: u64 beyond i64 reachable");
-                kani::cover!(index == 0 && kind == 0 && has_default, "c02: JSON null with DEFAULT reachable");
+                kani::cover!(index == 0 && kind == 0, "c02: JSON null leaf reachable");
             }
         }
     };
 }
-json_harness!(c02_json_index_int, ValueType::Int, 0);
-json_harness!(c02_json_index_real, ValueType::Float, 1);
-json_harness!(c02_json_index_boolean, ValueType::Bool, 2);
-json_harness!(c02_json_index_text, ValueType::String, 3);
+json_harness!(c02_json_index_int, ValueType::Int, 0, false);
+json_harness!(c02_json_index_int_default, ValueType::Int, 0, true);
+json_harness!(c02_json_index_real, ValueType::Float, 1, false);
+json_harness!(c02_json_index_real_default, ValueType::Float, 1, true);
+json_harness!(c02_json_index_boolean, ValueType::Bool, 2, false);
+json_harness!(c02_json_index_text, ValueType::String, 3, false);
+json_harness!(c02_json_index_text_default, ValueType::String, 3, true);
 
 // nested index path built by JsonAccess::from_linear: {[i][j]} on [[leaf, true], 5]
 extraction_proof! {
